@@ -23,6 +23,14 @@ Parts
   hd     draws.get_halton_draws directly: more bases / skips / symmetric / shuffled (owned shuffle).
   lhs    draws.get_latin_hypercube_draws / get_antithetic directly with explicit uniform numbers.
   shape  Database.generate_draws shape enforcement with user generators returning wrong / right shapes.
+  hist   histories of requests in ONE process (the statement holds whatever was requested before and whatever the
+         caller did with the arrays it was given): every ordered pair (thorough: also every ordered triple) of
+         catalogue entries x ordered pairs of sizes (same / different / same total, other shape) x entry point per step
+         (catalogue generator, Database.generate_draws on a Database kept through the history) x the caller's in-place
+         post-processing of the answer it received (none, multiply by 0, reshape in place to 1-D); the same request
+         repeated 3 (4) times; two variables in one generate_draws call.  Every answer of every step is checked against
+         every clause of part gen.  Each hist task runs in a worker process of its own, so that the process history
+         of a case is exactly the task's histories before it (recorded in the case; replay re-executes them).
 """
 from __future__ import annotations
 
@@ -39,7 +47,8 @@ from vf import ref_draws as R_
 ID = 'C11'
 LEVEL = 'exploration'
 TECHNIQUE = ('bounded exhaustive enumeration of catalogue entries x sizes x owned RNG answers (uniform tapes, all/'
-             'family of shuffle permutations) and of an exhaustive grid of uniform inputs for the quantile transform, '
+             'family of shuffle permutations), of all request histories of depth 2 (3) over the catalogue x sizes x entry '
+             'points x in-place caller actions in one process, and of an exhaustive grid of uniform inputs for the quantile transform, '
              'executed on the real generators and compared with an independent reference (exact radical inverse, '
              'strata, mirrors, certified erf/erfc Newton quantile)')
 RULE = ('gen: one case per (catalogue entry, N, R, uniform tape, shuffle answer); N x R from the tier\'s size grid '
@@ -57,7 +66,18 @@ RULE = ('gen: one case per (catalogue entry, N, R, uniform tape, shuffle answer)
         '{2,3,5,7[,11,13]} x skips x sizes with N*R <= 20 (60) x symmetric x {unshuffled, shuffled with every answer '
         '(n <= 5) / a family of ~8 answers}. lhs: get_latin_hypercube_draws with explicit uniform numbers (every tape) x '
         'symmetric x shuffle answers, get_antithetic with a deterministic generator. shape: Database.generate_draws '
-        'with user generators returning 7 shapes x 6 sizes.')
+        'with user generators returning 7 shapes x 6 sizes. hist: one case per step of a history of requests made in one '
+        'process; a step = (entry, N, R, entry point in {generator, Database.generate_draws on one Database per sample '
+        'size kept through the history}, what the caller then does in place with the array it received in {nothing, '
+        'multiply by 0, reshape to 1-D}); RNG answers fixed by the position of the step (tapes weyl, ramp, weyl2, ramprev; '
+        'shuffle answers rot1, rev, id, swap0). h2: all ordered pairs of entries (21 x 21) x ordered size pairs (quick: '
+        '(2,2)(2,2), (3,4)(3,4), (2,2)(3,4), (3,4)(2,2), (3,4)(2,6); thorough: all 16 pairs of {(1,2),(2,2),(3,4),(2,6)}) x '
+        '(entry point, entry point) in {gen-gen, db-db} (thorough also gen-db, db-gen) x caller action after step 1 '
+        '(3 for gen, {nothing, multiply by 0} for db); rep: every entry x size x entry point x caller action, the same '
+        'request 3 (thorough 4) times; multi: all ordered pairs of entries as two variables of ONE generate_draws call x '
+        'sizes; h3 (thorough): all ordered triples of entries x sizes (s,s,s), (s,s\',s) x {gen, db} x caller action after '
+        'every step in {nothing, reshape} (gen) / {nothing, multiply by 0} (db). Every answer is checked with all the '
+        'clauses of part gen (finding keys C11|history|<clause>|type=<entry>); distinct = distinct history prefix.')
 ASSUMPTIONS = [
     'biogeme.draws obtains randomness only through numpy.random.uniform and numpy.random.shuffle looked up on the '
     'numpy.random module at call time (the owned seam); other legacy numpy.random functions are trapped and reported '
@@ -69,6 +89,12 @@ ASSUMPTIONS = [
     'quantile comparison tolerance 3e-14*max(1,|z|) (a correct AS241 is within 1e-15 of the reference on all grids); '
     'denormal inputs u < 2^-1020 are outside the grid',
     'an entry that advertises a base but no skip may use any skip in 0..64, the same for every size',
+    'histories: depth 2 (quick) / 3 (thorough) over the whole catalogue, depth 3 / 4 for one repeated request; the '
+    'caller\'s in-place actions are multiplication by 0 and in-place reshape to 1-D only; one process per hist task '
+    '(task[\'fresh\']), process state older than the task is not explored; state kept outside the process (files) is '
+    'not reset between tasks',
+    'two variables in one generate_draws call are compared with the two entries asked alone under one continuing '
+    'tape (the clauses themselves are evaluated on single requests)',
     'a Latin-hypercube case in which a point lies within 1e-9 (in stratum units) of a stratum boundary is skipped and '
     'counted (skipped_fragile_stratum_boundary; arises only for the tape that contains 1e-12 and 1-1e-12)',
 ]
@@ -825,22 +851,25 @@ def _part_shape(task, rec):
 # post-processes *its* array in place: 'zero' multiplies it by 0, 'flat' reshapes it in place to one dimension (what
 # draws.get_normal_wichura_draws does to the uniform numbers it is given).  The RNG answers of step i are fixed by the
 # position: tape HTAPES[i], shuffle answer HPERMS[i].
+# Every hist task runs in a worker process of its own (task['fresh']): the process history of a case is exactly the
+# task's list of histories up to it, which is what a violation's case records (task, hindex) and what replay re-executes.
 HTAPES = ['weyl', 'ramp', 'weyl2', 'ramprev']
 HPERMS = [('rot', 1), ('rev',), ('id',), ('swap', 0)]
 MUTS = ['none', 'zero', 'flat']
 
 
-def hist_text(steps, pos):
+def hist_text(steps, pos, hindex):
     def one(st):
         return (f"{st['type']}({st['N']},{st['R']})" + ('@Database.generate_draws' if st['via'] == 'db' else '')
                 + ('' if st['mut'] == 'none' else f"+caller:{st['mut']}"))
+    before = f'; {hindex} other histories of this task ran earlier in the process' if hindex else ''
     if pos == 0:
-        return '[first request of a history]'
-    return '[requested after ' + ', '.join(one(st) for st in steps[:pos]) + ' in the same process]'
+        return f'[first request of a history{before}]'
+    return '[requested after ' + ', '.join(one(st) for st in steps[:pos]) + f' in the same process{before}]'
 
 
-def run_history(rec, cat, steps, only_pos=None):
-    """Executes the steps in order on the real code and checks every answer.  Returns nothing."""
+def run_history(rec, cat, steps, task, hindex):
+    """Executes the steps in order on the real code and checks every answer against every clause."""
     import numpy as np
     import pandas as pd
     import biogeme.database as db
@@ -866,10 +895,8 @@ def run_history(rec, cat, steps, only_pos=None):
                 out = g(n_, r_)
                 holder['raw'] = out
                 return out
-        hist = dict(case=dict(part='hist', steps=steps, pos=pos), key=('hist', hid[:pos + 1]),
-                    producer=producer, where=hist_text(steps, pos))
-        if only_pos is not None and pos > only_pos:
-            break
+        hist = dict(case=dict(part='hist', task=task, hindex=hindex, pos=pos, steps=steps),
+                    key=('hist', hid[:pos + 1]), producer=producer, where=hist_text(steps, pos, hindex))
         check_entry_case(rec, cat, name, n, r, tid, perm, {}, via_db=False, hist=hist)
         raw = holder.get('raw')
         if isinstance(raw, np.ndarray) and st['mut'] != 'none':
@@ -883,126 +910,142 @@ def run_history(rec, cat, steps, only_pos=None):
 
 
 def _hist_sizes(tier):
-    return [(2, 2), (3, 4), (2, 6)] if tier == 'quick' else [(1, 2), (2, 2), (3, 4), (2, 6), (4, 3)]
+    return [(2, 2), (3, 4), (2, 6)] if tier == 'quick' else [(1, 2), (2, 2), (3, 4), (2, 6)]
 
 
-def _part_hist(task, rec):
-    cat = catalogue()
+def hist_iter(task, cat):
+    """The task's histories in their (deterministic) order of execution.  Items: ('steps', [step...]),
+    ('multi', a, b, n, r) or ('skip',) (a size outside the domain of one of the entries)."""
     names = list(cat)
     sh_i, sh_k = task['shard']
     kind = task['kind']
-    S = [tuple(s) for s in task['sizes']]
+    S = [tuple(s) for s in task.get('sizes', [])]
 
     def ok_size(name, s):
         return not (cat[name][1]['anti'] and s[1] % 2)
 
-    if kind == 'h2':
-        # every ordered pair of entries x every ordered pair of sizes x (via, via) x what the caller does in between
-        for a in names[sh_i::sh_k]:
-            for b in names:
-                for sa in S:
-                    for sb in S:
-                        if not (ok_size(a, sa) and ok_size(b, sb)):
-                            rec.count('skipped_out_of_domain_odd_R_antithetic')
-                            continue
-                        for va, vb in task['vias']:
-                            for mut in task['muts']:
-                                steps = [dict(type=a, N=sa[0], R=sa[1], via=va, mut=mut),
-                                         dict(type=b, N=sb[0], R=sb[1], via=vb, mut='none')]
-                                run_history(rec, cat, steps)
-                                rec.count('histories')
-    elif kind == 'h3':
-        # every ordered triple of entries; sizes s, s', s (s' = s and s' != s); the caller's action after every step
-        for a in names[sh_i::sh_k]:
-            for b in names:
-                for c in names:
-                    for sa, sb in task['size_patterns']:
-                        sa, sb = tuple(sa), tuple(sb)
-                        if not (ok_size(a, sa) and ok_size(b, sb) and ok_size(c, sa)):
-                            rec.count('skipped_out_of_domain_odd_R_antithetic')
-                            continue
-                        for via in task['vias']:
-                            for mut in task['muts']:
-                                steps = [dict(type=a, N=sa[0], R=sa[1], via=via[0], mut=mut),
-                                         dict(type=b, N=sb[0], R=sb[1], via=via[1], mut=mut),
-                                         dict(type=c, N=sa[0], R=sa[1], via=via[2], mut='none')]
-                                run_history(rec, cat, steps)
-                                rec.count('histories')
-    elif kind == 'rep':
-        # the same request repeated k times (k = task['k']) with the caller's action after every answer
+    pairs = [(a, b) for a in names for b in names][sh_i::sh_k]
+    if kind == 'rep':
+        # the same request repeated k times with the caller's action after every answer
         for a in names[sh_i::sh_k]:
             for s in S:
                 if not ok_size(a, s):
-                    rec.count('skipped_out_of_domain_odd_R_antithetic')
+                    yield ('skip',)
                     continue
                 for via in ('gen', 'db'):
                     for mut in task['muts']:
-                        steps = [dict(type=a, N=s[0], R=s[1], via=via, mut=mut) for _ in range(task['k'])]
-                        run_history(rec, cat, steps)
-                        rec.count('histories')
+                        yield ('steps', [dict(type=a, N=s[0], R=s[1], via=via, mut=mut) for _ in range(task['k'])])
     elif kind == 'multi':
-        _hist_multi(task, rec, cat, names[sh_i::sh_k], names, S)
+        for a, b in pairs:
+            for (n, r) in S:
+                if (cat[a][1]['anti'] or cat[b][1]['anti']) and r % 2:
+                    yield ('skip',)
+                else:
+                    yield ('multi', a, b, n, r)
+    elif kind == 'h2':
+        # every ordered pair of entries x the task's ordered pairs of sizes x (via, via) x what the caller does in between
+        for a, b in pairs:
+            for sa, sb in task['combos']:
+                sa, sb = tuple(sa), tuple(sb)
+                if not (ok_size(a, sa) and ok_size(b, sb)):
+                    yield ('skip',)
+                    continue
+                for va, vb, muts in task['plan']:
+                    for mut in muts:
+                        yield ('steps', [dict(type=a, N=sa[0], R=sa[1], via=va, mut=mut),
+                                         dict(type=b, N=sb[0], R=sb[1], via=vb, mut='none')])
+    elif kind == 'h3':
+        # every ordered triple of entries; sizes s, s', s (s' = s and s' != s); the caller's action after every step
+        for a, b in pairs:
+            for c in names:
+                for sa, sb in task['combos']:
+                    sa, sb = tuple(sa), tuple(sb)
+                    if not (ok_size(a, sa) and ok_size(b, sb) and ok_size(c, sa)):
+                        yield ('skip',)
+                        continue
+                    for via, muts in task['plan']:
+                        for mut in muts:
+                            yield ('steps', [dict(type=a, N=sa[0], R=sa[1], via=via, mut=mut),
+                                             dict(type=b, N=sb[0], R=sb[1], via=via, mut=mut),
+                                             dict(type=c, N=sa[0], R=sa[1], via=via, mut='none')])
     else:
         raise KeyError(kind)
 
 
-def _hist_multi(task, rec, cat, firsts, names, S):
-    """Two variables in ONE Database.generate_draws call: slice j of the table must be what entry j delivers when it
-    is asked alone under the same RNG answers (the tape simply continues from the first generator to the second)."""
+def _part_hist(task, rec, stop_after=None):
+    cat = catalogue()
+    hindex = 0
+    for item in hist_iter(task, cat):
+        if item[0] == 'skip':
+            rec.count('skipped_out_of_domain_odd_R_antithetic')
+            continue
+        if stop_after is not None and hindex > stop_after:
+            break
+        if item[0] == 'steps':
+            run_history(rec, cat, item[1], task, hindex)
+        else:
+            _hist_multi(rec, cat, item[1], item[2], item[3], item[4], task, hindex)
+        rec.count('histories')
+        hindex += 1
+    if hindex and task['shard'][0] == 0:
+        rec.sample(dict(part='hist', kind=task['kind'], histories_in_this_task=hindex,
+                        last=item[1] if item[0] == 'steps' else list(item[1:])))
+
+
+def _hist_multi(rec, cat, a, b, n, r, task, hindex):
+    """Two variables in ONE Database.generate_draws call: the call must deliver the (N, R, 2) table, and slice j must
+    be what entry j delivers when it is asked alone under the same RNG answers (the tape simply continues from the
+    first generator to the second)."""
     import pandas as pd
     import biogeme.database as db
-    for a in firsts:
-        for b in names:
-            for (n, r) in S:
-                if (cat[a][1]['anti'] or cat[b][1]['anti']) and r % 2:
-                    rec.count('skipped_out_of_domain_odd_R_antithetic')
-                    continue
-                tid, perm = HTAPES[0], HPERMS[1]
-                case = dict(part='hist', multi=True, pair=[a, b], N=n, R=r)
-                key = ('multi', a, b, n, r)
-                d = db.Database('c11m', pd.DataFrame({'x': [float(i + 1) for i in range(n)]}))
-                tape = Tape(tid, perm)
-                with owned(tape):
-                    try:
-                        t, e = d.generate_draws({'a': a, 'b': b}, ['a', 'b'], r), None
-                    except UnownedRandomness:
-                        raise
-                    except Exception as ex:  # noqa: BLE001
-                        t, e = None, ex
-                tape2 = Tape(tid, perm)
-                with owned(tape2):
-                    try:
-                        oa = cat[a][0](n, r)
-                        ob = cat[b][0](n, r)
-                        e2 = None
-                    except UnownedRandomness:
-                        raise
-                    except Exception as ex:  # noqa: BLE001
-                        e2 = ex
-                singles = e2 is None and getattr(oa, 'shape', None) == (n, r) and getattr(ob, 'shape', None) == (n, r)
-                culprit = None
-                if e is not None:
-                    good, obs = False, f'raised {type(e).__name__}: {e}'
-                    m = re.search(r'generator for (a|b) must', str(e))
-                    culprit = {'a': a, 'b': b}[m.group(1)] if m else None
-                elif tuple(getattr(t, 'shape', ())) != (n, r, 2):
-                    good, obs = False, f'table of shape {tuple(getattr(t, "shape", ()))} instead of ({n}, {r}, 2)'
-                elif not singles:
-                    rec.count('hist_multi_single_requests_failed')   # reported by the history / gen parts
-                    rec.case(key, (key, 'single-failed'), outcome=('multi', 'single-failed'))
-                    continue
-                else:
-                    ga = all_close(flat(t[:, :, 0]), flat(oa), 0.0)
-                    gb = all_close(flat(t[:, :, 1]), flat(ob), 0.0)
-                    good = ga and gb
-                    culprit = a if not ga else b
-                    obs = '' if good else ('slice of variable ' + ('a' if not ga else 'b') + ' differs from the entry '
-                                           'asked alone under the same RNG answers')
-                rec.case(key, (key, digest(t) if e is None else 'raised'), outcome=('multi', good))
-                if not good:
-                    rec.violation(f'C11|history|db-path-two-variables|type={culprit or (a + "+" + b)}',
-                                  f'Database.generate_draws({{a: {a}, b: {b}}}, [a, b], {r}) on {n} rows: {obs}', case,
-                                  expected='the (N, R, 2) table of the two entries', observed=obs)
+    tid, perm = HTAPES[0], HPERMS[1]
+    case = dict(part='hist', task=task, hindex=hindex, pos=0, multi=[a, b, n, r])
+    key = ('multi', a, b, n, r)
+    d = db.Database('c11m', pd.DataFrame({'x': [float(i + 1) for i in range(n)]}))
+    tape = Tape(tid, perm)
+    with owned(tape):
+        try:
+            t, e = d.generate_draws({'a': a, 'b': b}, ['a', 'b'], r), None
+        except UnownedRandomness:
+            raise
+        except Exception as ex:  # noqa: BLE001
+            t, e = None, ex
+    tape2 = Tape(tid, perm)
+    oa = ob = None
+    with owned(tape2):
+        try:
+            oa = cat[a][0](n, r)
+            ob = cat[b][0](n, r)
+            e2 = None
+        except UnownedRandomness:
+            raise
+        except Exception as ex:  # noqa: BLE001
+            e2 = ex
+    singles = e2 is None and getattr(oa, 'shape', None) == (n, r) and getattr(ob, 'shape', None) == (n, r)
+    culprit = None
+    if e is not None:
+        good, obs = False, f'raised {type(e).__name__}: {e}'
+        m = re.search(r'generator for (a|b) must', str(e))
+        culprit = {'a': a, 'b': b}[m.group(1)] if m else None
+    elif tuple(getattr(t, 'shape', ())) != (n, r, 2):
+        good, obs = False, f'table of shape {tuple(getattr(t, "shape", ()))} instead of ({n}, {r}, 2)'
+    elif not singles:
+        rec.count('hist_multi_single_requests_failed')   # reported by the history / gen parts
+        rec.case(key, (key, 'single-failed'), outcome=('multi', 'single-failed'))
+        return
+    else:
+        ga = all_close(flat(t[:, :, 0]), flat(oa), 0.0)
+        gb = all_close(flat(t[:, :, 1]), flat(ob), 0.0)
+        good = ga and gb
+        culprit = a if not ga else b
+        obs = '' if good else ('slice of variable ' + ('a' if not ga else 'b') + ' differs from the entry '
+                               'asked alone under the same RNG answers')
+    rec.case(key, (key, digest(t) if e is None else 'raised'), outcome=('multi', good))
+    if not good:
+        before = f' [{hindex} other requests of this task ran earlier in the process]' if hindex else ''
+        rec.violation(f'C11|history|db-path-two-variables|type={culprit or (a + "+" + b)}',
+                      f'Database.generate_draws({{a: {a}, b: {b}}}, [a, b], {r}) on {n} rows: {obs}{before}', case,
+                      expected='the (N, R, 2) table of the two entries', observed=obs)
 
 
 # --------------------------------------------------------------------------- part q
@@ -1133,26 +1176,36 @@ def sizes(tier):
     return out
 
 
-HIST_SHARDS = 21
+HIST_SHARDS = 21   # h2 / h3 / multi tasks deal the ordered pairs of entries round-robin over a multiple of this
 
 
 def hist_tasks(tier):
     t = []
     hs = [list(x) for x in _hist_sizes(tier)]
-    k = HIST_SHARDS
-    vias2 = [['gen', 'gen'], ['db', 'db'], ['gen', 'db'], ['db', 'gen']]
+    quick = tier == 'quick'
+    k = 3
     for i in range(k):
-        t.append(dict(part='hist', kind='rep', shard=[i, k], sizes=hs, muts=MUTS, k=3 if tier == 'quick' else 4))
+        t.append(dict(part='hist', kind='rep', shard=[i, k], sizes=hs, muts=MUTS, k=3 if quick else 4))
     for i in range(k):
         t.append(dict(part='hist', kind='multi', shard=[i, k], sizes=hs))
-    for i in range(k):
-        t.append(dict(part='hist', kind='h2', shard=[i, k], sizes=hs, vias=vias2, muts=MUTS))
-    if tier != 'quick':
+    if quick:
+        combos = [[[2, 2], [2, 2]], [[3, 4], [3, 4]], [[2, 2], [3, 4]], [[3, 4], [2, 2]], [[3, 4], [2, 6]]]
+        plan = [['gen', 'gen', MUTS], ['db', 'db', ['none', 'zero']]]
+        k2 = HIST_SHARDS
+    else:
+        combos = [[sa, sb] for sa in hs for sb in hs]
+        plan = [['gen', 'gen', MUTS], ['db', 'db', ['none', 'zero']], ['gen', 'db', MUTS], ['db', 'gen', ['none', 'zero']]]
+        k2 = 4 * HIST_SHARDS
+    for i in range(k2):
+        t.append(dict(part='hist', kind='h2', shard=[i, k2], combos=combos, plan=plan))
+    if not quick:
         k3 = 4 * HIST_SHARDS
         for i in range(k3):
-            t.append(dict(part='hist', kind='h3', shard=[i, k3], sizes=hs,
-                          size_patterns=[[[2, 2], [2, 2]], [[2, 2], [3, 4]]],
-                          vias=[['gen', 'gen', 'gen'], ['db', 'db', 'db']], muts=['none', 'flat']))
+            t.append(dict(part='hist', kind='h3', shard=[i, k3],
+                          combos=[[[2, 2], [2, 2]], [[2, 2], [3, 4]]],
+                          plan=[['gen', ['none', 'flat']], ['db', ['none', 'zero']]]))
+    for x in t:
+        x['fresh'] = True
     return t
 
 
@@ -1231,12 +1284,9 @@ def replay(case):
     elif part == 'shape':
         _part_shape(case, rec)
     elif part == 'hist':
-        cat = catalogue()
-        if case.get('multi'):
-            _hist_multi({}, rec, cat, [case['pair'][0]], [case['pair'][1]], [(case['N'], case['R'])])
-        else:
-            run_history(rec, cat, case['steps'], only_pos=case['pos'])
-            rec.violations = [v for v in rec.violations if v['case'].get('pos') == case['pos']]
+        _part_hist(case['task'], rec, stop_after=case['hindex'])
+        rec.violations = [v for v in rec.violations
+                          if (v['case'].get('hindex'), v['case'].get('pos')) == (case['hindex'], case['pos'])]
     elif part == 'q':
         if 'witness_u' in case:
             u = float.fromhex(case['witness_u'])
